@@ -1571,6 +1571,121 @@ def gen_loops():
     data['grow'] = gp
     return texts, data
 
+
+
+# ------------------------------------------------------------------ History.get / Opytimizer.start
+def read_get(fn):
+    b = lambda v: 'true' if v else 'false'
+    F = dict(typeGuardFirst=False, arrayWithObjectFallback=False, sizeGuard=False, sliceAllThenIndex=False, stacksAndReturns=False, extraStmts=0)
+    show = lambda: '{ ' + ', '.join(f'{k} := {b(v) if isinstance(v, bool) else v}' for k, v in F.items()) + ' }'
+    if fn is None or len(fn.args.args) != 3:
+        F['extraStmts'] = 1
+        return show()
+    _, key, idx = [a.arg for a in fn.args.args]
+    stmts = body_of(fn)
+    arr = None
+    stage = 0
+    for k_, st in enumerate(stmts):
+        u = ' '.join(ast.unparse(st).split())
+        if stage == 0 and isinstance(st, ast.If) and not st.orelse and ast.unparse(st.test) == f'not isinstance({idx}, tuple)' \
+                and len(st.body) == 1 and isinstance(st.body[0], ast.Raise) and ast.unparse(st.body[0].exc).startswith('e.TypeError('):
+            F['typeGuardFirst'] = k_ == 0
+            stage = 1
+            continue
+        if stage == 1 and isinstance(st, ast.Try) and len(st.body) == 1 and len(st.handlers) == 1 and not st.orelse and not st.finalbody:
+            a0, h0 = st.body[0], st.handlers[0]
+            if isinstance(a0, ast.Assign) and len(a0.targets) == 1 and isinstance(a0.targets[0], ast.Name) \
+                    and ast.unparse(a0.value) == f'np.asarray(getattr(self, {key}))' and h0.type is not None and ast.unparse(h0.type) == 'ValueError' \
+                    and len(h0.body) == 1 and ast.unparse(h0.body[0]) == f'{a0.targets[0].id} = np.asarray(getattr(self, {key}), dtype=object)':
+                arr = a0.targets[0].id
+                F['arrayWithObjectFallback'] = True
+                stage = 2
+                continue
+        if stage == 2 and arr and isinstance(st, ast.If) and not st.orelse and ast.unparse(st.test) in (f'{arr}.ndim - 1 != len({idx})', f'len({idx}) != {arr}.ndim - 1') \
+                and len(st.body) == 1 and isinstance(st.body[0], ast.Raise) and ast.unparse(st.body[0].exc).startswith('e.SizeError('):
+            F['sizeGuard'] = True
+            stage = 3
+            continue
+        if stage == 3 and u == f'{arr} = {arr}[(slice(None),) + {idx}]':
+            F['sliceAllThenIndex'] = True
+            stage = 4
+            continue
+        if stage == 4 and u == f'{arr} = np.hstack({arr})' and k_ + 1 < len(stmts) and ast.unparse(stmts[k_ + 1]) == f'return {arr}':
+            F['stacksAndReturns'] = True
+            stage = 5
+            continue
+        if stage == 4 and u == f'return np.hstack({arr})':
+            F['stacksAndReturns'] = True
+            stage = 6
+            continue
+        if stage == 5 and u == f'return {arr}':
+            stage = 6
+            continue
+        F['extraStmts'] += 1
+    return show()
+
+
+def read_start(fn):
+    b = lambda v: 'true' if v else 'false'
+    F = dict(clockBefore=False, runsWithOwnComponents=False, passesFlagAndHook=False, clockAfter=False, dumpsElapsed=False,
+             returnsThatHistory=False, extraStmts=0)
+    show = lambda: '{ ' + ', '.join(f'{k} := {b(v) if isinstance(v, bool) else v}' for k, v in F.items()) + ' }'
+    if fn is None or len(fn.args.args) != 3:
+        F['extraStmts'] = 1
+        return show()
+    _, flag, hook = [a.arg for a in fn.args.args]
+    stmts = [s for s in body_of(fn) if not (isinstance(s, ast.Expr) and isinstance(s.value, ast.Call) and ast.unparse(s.value.func).startswith('logger.'))]
+    t0 = t1 = hist = dt = None
+    for st in stmts:
+        u = ' '.join(ast.unparse(st).split())
+        tgt = st.targets[0].id if isinstance(st, ast.Assign) and len(st.targets) == 1 and isinstance(st.targets[0], ast.Name) else None
+        v = getattr(st, 'value', None)
+        if tgt and ast.unparse(v) == 'time.time()' and t0 is None and hist is None:
+            t0 = tgt
+            F['clockBefore'] = True
+        elif tgt and isinstance(v, ast.Call) and ast.unparse(v.func) == 'self.optimizer.run' and hist is None and t0:
+            hist = tgt
+            a = [ast.unparse(x) for x in v.args]
+            kw = {k.arg: ast.unparse(k.value) for k in v.keywords}
+            F['runsWithOwnComponents'] = a[:2] == ['self.space', 'self.function']
+            rest = a[2:] + [kw.get('store_best_only'), kw.get('pre_evaluation_hook')][len(a[2:]):]
+            F['passesFlagAndHook'] = rest == [flag, hook] and set(kw) <= {'store_best_only', 'pre_evaluation_hook'}
+        elif tgt and ast.unparse(v) == 'time.time()' and hist and t1 is None:
+            t1 = tgt
+            F['clockAfter'] = True
+        elif tgt and t0 and t1 and ast.unparse(v) == f'{t1} - {t0}' and dt is None:
+            dt = tgt
+        elif hist and isinstance(st, ast.Expr) and u in ([f'{hist}.dump(time={dt})'] if dt else []) + ([f'{hist}.dump(time={t1} - {t0})'] if t1 else []):
+            F['dumpsElapsed'] = True
+        elif hist and t0 and isinstance(st, ast.Expr) and u == f'{hist}.dump(time=time.time() - {t0})' and t1 is None:
+            # `end` read in place: the same clock reading at the same point
+            F['clockAfter'] = True
+            F['dumpsElapsed'] = True
+        elif hist and u == f'return {hist}':
+            F['returnsThatHistory'] = True
+        else:
+            F['extraStmts'] += 1
+    return show()
+
+
+_old_gen_loops12 = gen_loops
+
+
+def gen_loops():
+    texts, data = _old_gen_loops12()
+    gp = read_get(find_method(f'{REPO}/opytimizer/utils/history.py', 'History', 'get'))
+    sp = read_start(find_method(f'{REPO}/opytimizer/opytimizer.py', 'Opytimizer', 'start'))
+    texts['HistProgDefs'] = '\n'.join(['-- GENERATED by harness/translate_loops.py from History.get and Opytimizer.start. Do not edit.',
+                                       'import OpyVerif.Model.HistProg', 'namespace Opy.Gen', 'open Opy', '',
+                                       f'def getProg : GetProg := {gp}', f'def startProg : StartProg := {sp}', '', 'end Opy.Gen', ''])
+    texts['HistProg'] = '\n'.join(['-- GENERATED by harness/translate_loops.py: obligations re-decided on every build. Do not edit.',
+                                   'import OpyVerif.Generated.HistProgDefs', 'namespace Opy.Gen', 'open Opy',
+                                   'theorem getProg_eq : getProg = Expected.getProg := by decide +kernel',
+                                   'theorem startProg_eq : startProg = Expected.startProg := by decide +kernel',
+                                   'end Opy.Gen', ''])
+    data['hist_progs'] = dict(get=gp, start=sp)
+    return texts, data
+
 if __name__ == '__main__':
     t, d = gen_loops()
     print(t['HeapOpsDefs'])
